@@ -38,6 +38,7 @@ def scenarios(tier):
     sc.append(('opt_only', dict(q=[], an=[], ns=[], ar=[], opt=[])))
     sc.append(('opt_and_ar', dict(q=['a'], an=[], ns=[], ar=[('A', 'a', []), ('TXT', 'b', [])], opt=[2, 0])))
     sc.append(('maxname', dict(q=['m'], an=[('NS', 'm', ['n'])], ns=[], ar=[], opt=None)))   # 255-octet names
+    sc.append(('far', dict(q=['a'], an=[('NULLBIG', 'd', []), ('NS', 'b', ['c']), ('NS', 'c', ['b']), ('MX', 'b', ['b'])], ns=[], ar=[], opt=None)))
     sc.append(('soa_minfo', dict(q=[], an=[('SOA', 'a', ['b', 'c'])], ns=[('MINFO', 'd', ['a', 'b'])], ar=[], opt=None)))
     if tier == 'thorough':
         sc.append(('rp_afsdb_rt', dict(q=['b'], an=[('RP', 'a', ['b', 'c']), ('AFSDB', 'b', ['a'])], ns=[('RouteThrough', 'c', ['b'])], ar=[], opt=None)))
@@ -49,6 +50,9 @@ def scenarios(tier):
 
 
 def tasks(tier, params):
+    only = params.get('only')
+    if only:
+        return [(n, {'scenario': s, 'hdr': 'base'}) for n, s in scenarios(tier) if n in only]
     out = [(n, {'scenario': s, 'hdr': 'base'}) for n, s in scenarios(tier)]
     out.append(('hdr_codes', {'scenario': dict(q=[], an=[], ns=[], ar=[], opt=None, names={}), 'hdr': 'codes'}))
     out.append(('hdr_codes_opt', {'scenario': dict(q=[], an=[], ns=[], ar=[], opt=[], names={}), 'hdr': 'codes'}))
@@ -87,9 +91,14 @@ class Builder:
 
     def rdata(self, tname, rd_names):
         g = self.g
-        if tname == 'NULL':
-            bs, cw = g.cow(3, 'nd')
-            return En('RData', 'NULL', (mk('u16', 65280), g.struct('NULL', length=mk('u16', 3), data=cw))), bs, 65280
+        if tname in ('NULL', 'NULLBIG'):
+            n = 3 if tname == 'NULL' else 16400
+            if tname == 'NULL':
+                bs, cw = g.cow(3, 'nd')
+            else:
+                bs = [mk('u8', 0)] * n          # contents irrelevant: only its size matters (names land beyond 16383)
+                cw = En('Cow', 'Borrowed', (SliceRef(Ref(Cell(Agg('array', bs), 'big')), mk('usize', 0), mk('usize', n)),))
+            return En('RData', 'NULL', (mk('u16', 65280), g.struct('NULL', length=mk('u16', n), data=cw))), bs, 65280
         t = S.BY_NAME[tname]
         shape = {'names': [tuple(len(self.label_bytes(l)) for l in self.sc['names'][n]) for n in rd_names] or [(1,)],
                  'strs': [2, 0, 1], 'rest': 2, 'list': [2], 'gateway': 'Domain'}
@@ -120,9 +129,9 @@ class Builder:
         rd_rust = g.last_rust
         ttl = g.fresh('u32', 'ttl')
         flush = g.fresh('bool', 'fl')
-        if tname == 'NULL':
+        if tname in ('NULL', 'NULLBIG'):
             nd = rd.f[1].f[1].f[0]
-            rdr = lambda m, nd=nd: 'RData::NULL(65280, rdata::NULL::new(%s).unwrap())' % VG.rs_bytes(m, self.I.seq_list(nd))
+            rdr = (lambda m, nd=nd: 'RData::NULL(65280, rdata::NULL::new(%s).unwrap())' % VG.rs_bytes(m, self.I.seq_list(nd))) if tname == 'NULL' else (lambda m: 'RData::NULL(65280, rdata::NULL::new(&[0u8; 16400][..]).unwrap())')
         else:
             rdr = lambda m, rd_rust=rd_rust, tname=tname: 'RData::%s(%s)' % (tname, rd_rust(m))
         self.rust_rr[self.cur_section].append(
